@@ -146,8 +146,9 @@ def _c12_oracle(inp, obs, extra):
         return 'the JSON encoding of a valid claims-set is rejected by DecodeClaimsFromJSON'
     if o[2:13] != orig:
         return 'getter results differ after the JSON round trip: %s vs %s' % (' '.join(o[2:13]), ' '.join(orig))
-    if o[-1] != 'cross=same':
-        return 'CBOR -> claims -> JSON -> claims -> CBOR does not reproduce the bytes (%s)' % o[-1]
+    cr = [t for t in o if t.startswith('cross=')]
+    if cr and cr[0] != 'cross=same':
+        return 'CBOR -> claims -> JSON -> claims -> CBOR does not reproduce the bytes (%s)' % cr[0]
     return None
 
 
@@ -237,7 +238,7 @@ REG_CONE = WIRE_CONE + ['theories/RegistryProofs.v']
 
 PROPS = {
     'C07': dict(
-        cone=REG_CONE, level='proof', kernel_maxlen=2500,
+        cone=REG_CONE + ['theories/JsonProofs.v', 'theories/JsonRoundtrip.v', 'theories/JsonCross.v'], level='proof', kernel_maxlen=2500,
         nontrivial=lambda i, o: 'err' in o, classify=lambda i, o: 'regs=%d' % sum(1 for t in i.split(' ') if t.startswith('r')),
         rule='every combination of the profile claim under key 265 / member eat-profile and under key -75000 / member psa-profile (absent, null, the two built-in names, three extension names, an unregistered URL, a non-normalised spelling of the profile-2 name, an integer) on complete valid profile-1 and profile-2 bodies, in CBOR and in JSON, under four register configurations (no extension, one, two, three extension profiles; profile-2-based ones sharing eat-profile, a profile-1-based one sharing psa-profile), plus NewClaims for every name, plus random histories; each history in its own process; observed: error or (dynamic type, GetProfile result, Validate result); JSON dispatch repeated 64 times per token; non-trivial = some step is an error',
     ),
@@ -287,7 +288,7 @@ PROPS = {
         rule='tokens assembled by an independent CBOR writer: per claim key every value class (absent, null, undefined, booleans, simple values, floats of all widths, integers at every width boundary incl. 2^31, 2^32, 2^63, 2^64-1 and negative counterparts, non-preferred heads, byte strings of 14 lengths, texts incl. invalid UTF-8, arrays / maps / nested, tagged forms, indefinite lengths) with the rest valid; the other profile\'s keys mixed in; permuted key order; unknown extra keys (int, text, huge uint, byte-string / array / bool / float keys); duplicates; trailing and truncated bytes; pairs of deviations; non-map top-level items; non-trivial = rejected or some getter failing',
     ),
     'C08': dict(
-        cone=EV_CONE, level='proof', kernel_maxlen=6000, oracle=lambda i, o, x: _c12_oracle(i, o, x) if i.startswith('RTJ ') else None,
+        cone=EV_CONE + ['theories/JsonProofs.v', 'theories/JsonRoundtrip.v', 'theories/JsonCross.v'], level='proof', kernel_maxlen=6000, oracle=lambda i, o, x: _c12_oracle(i, o, x) if i.startswith('RTJ ') else None,
         nontrivial=lambda i, o: 'err' in o or ' e' in o, classify=lambda i, o: i.split(' ')[0] + ' ' + o.split(' ')[0][:3],
         rule='every C01 claims-set (valid and each kind of invalid) through ValidateAndEncodeClaimsToCBOR vs EncodeClaimsToCBOR, Evidence.SetClaims (result and whether anything was attached), ValidateAndSign (result, no token on failure, payload = plain encoding); every C04 token through DecodeAndValidateClaimsFromCBOR vs DecodeClaimsFromCBOR and DecodeAndValidateEvidenceFromCOSE vs DecodeEvidenceFromCOSE; non-trivial = some gate refused',
     ),
